@@ -555,5 +555,30 @@ pub fn run(args: &[String]) {
         };
         emit(&mut w, &s, extra);
     }
+    // (e) number prefixes / exponents without digits, glued to whatever follows and precedes them (C11):
+    //     the diagnostic must not depend on the neighbours
+    let heads = ["0b", "0B", "0o", "0O", "0x", "0X", "0b_", "0x_", "1e", "1E", "1.5e+", ".5E-", "2.e", "0e", "1e_", "00b", "1_e"];
+    let tails = [".", ".5", ".e1", "e", "e3", "E-1", "E+", "_", "_1", "x", "im", "ns", "0", "1", "9", "a", "f", "g", "b1", "\"", "'", ";", " ", "..", "+1", "-1", "[", "us", "dt", "e+5", ".0im", "p", "z"];
+    let fronts = ["", "", " ", "x=", "(", "-", "a", "1", "\"01\"", "//c\n", "[", "$"];
+    let nadj = arg_u64(args, "--adjacent", 0);
+    let mut k = 0u64;
+    if nadj > 0 {
+        'outer: for f in fronts {
+            for h in heads {
+                for t in tails {
+                    for t2 in ["", ";", "5", " q"] {
+                        k += 1;
+                        if k > nadj {
+                            break 'outer;
+                        }
+                        if k % nshards != shard {
+                            continue;
+                        }
+                        emit(&mut w, &format!("{f}{h}{t}{t2}"), None);
+                    }
+                }
+            }
+        }
+    }
     finish(w);
 }
